@@ -58,9 +58,12 @@ func (cr *chainRun) emptyBlock() error {
 		return err
 	}
 	if b.Panic != "" {
-		return fmt.Errorf("empty block panics: %s", b.Panic)
+		return &disagreeError{"building an evidence-free block panics: " + b.Panic}
 	}
-	return k.Import(b.Block)
+	if err := k.Import(b.Block); err != nil {
+		return &disagreeError{"evidence-free block: " + err.Error()}
+	}
+	return nil
 }
 
 // pad: never let the checked block be a period end (rewards distribution, withdraw queue processing and inactivity
@@ -340,6 +343,24 @@ func replayChain(drv *vh.Driver, body []string) (bool, string) {
 
 var chainReported = map[string]int{}
 
+// disagreeInChain: a builder/importer disagreement on a padding block of a running chain script becomes an oracle failure
+// (replay = the script so far); the chain is dropped.  false = the error is something else.
+func disagreeInChain(c *vh.Ctx, cr *chainRun, i int, err error) bool {
+	de, ok := err.(*disagreeError)
+	if !ok {
+		return false
+	}
+	chainReported["oracle/disagree"]++
+	c.Res.Dist("failure:chain:builder-importer-disagree")
+	if chainReported["oracle/disagree"] <= 2 {
+		rp := vh.WriteReplay(c.ReplayDir, "C05", fmt.Sprintf("chain%d-disagree-%d", i, c.Seed), c.Seed,
+			[]string{"chain script", "builder/importer disagree on a block (may depend on Go map order: `replay` re-runs chain scripts up to 5 times)", de.what}, cr.script)
+		c.Res.Fail("oracle", "", "builder/importer disagree on a block: "+de.what, rp)
+	}
+	cr.stop()
+	return true
+}
+
 func chainLevel(c *vh.Ctx, drv *vh.Driver) error {
 	res := c.Res
 	steps := c.N(40, 400)
@@ -353,9 +374,23 @@ func chainLevel(c *vh.Ctx, drv *vh.Driver) error {
 			if cr != nil {
 				cr.stop()
 			}
-			cr, err = newChainRun(drv, 36+c.R.Intn(20), false)
-			if err != nil {
-				return err
+			nb := 36 + c.R.Intn(20)
+			cr = nil
+			for try := 0; try < scenarioTries && cr == nil; try++ {
+				cr, err = newChainRun(drv, nb, false)
+				if de, ok := err.(*disagreeError); ok {
+					if try == 0 {
+						reportScenarioDisagreement(c, nb, false, de.what)
+					}
+					cr = nil
+					continue
+				}
+				if err != nil {
+					return err
+				}
+			}
+			if cr == nil {
+				return nil // reported; no chain can be built
 			}
 			slashed = 0
 		}
@@ -366,11 +401,19 @@ func chainLevel(c *vh.Ctx, drv *vh.Driver) error {
 		}
 		if c.R.Chance(15) {
 			if err := cr.pad(); err != nil {
+				if disagreeInChain(c, cr, i, err) {
+					cr = nil
+					continue
+				}
 				return err
 			}
 			sd := genRawSlashData(c.R, cr.sc)
 			res.Dist("chain:raw-slashdata")
 			fs, _, err := cr.step("X", []string{"SD -" + hex.EncodeToString(sd)})
+			if err != nil && disagreeInChain(c, cr, i, err) {
+				cr = nil
+				continue
+			}
 			if err != nil {
 				return fmt.Errorf("chain step %d (raw SlashData): %v\n%s", i, err, strings.Join(cr.script, "\n"))
 			}
@@ -395,6 +438,10 @@ func chainLevel(c *vh.Ctx, drv *vh.Driver) error {
 		}
 		n := 1 + c.R.Weighted([]int{50, 30, 20})
 		if err := cr.pad(); err != nil {
+			if disagreeInChain(c, cr, i, err) {
+				cr = nil
+				continue
+			}
 			return err
 		}
 		var el []string
@@ -414,6 +461,10 @@ func chainLevel(c *vh.Ctx, drv *vh.Driver) error {
 			el = append(el, l)
 		}
 		fs, info, err := cr.step(mode, el)
+		if err != nil && disagreeInChain(c, cr, i, err) {
+			cr = nil
+			continue
+		}
 		if err != nil {
 			return fmt.Errorf("chain step %d: %v\n%s", i, err, strings.Join(cr.script, "\n"))
 		}
@@ -525,7 +576,9 @@ func probes(c *vh.Ctx, sc *scenario, drv *vh.Driver) {
 	for _, p := range ps {
 		fs, err := p.run(drv)
 		rep, what := false, p.what
-		if err != nil {
+		if de, ok := err.(*disagreeError); ok {
+			reportScenarioDisagreement(c, 36, true, "probe "+p.id+": "+de.what)
+		} else if err != nil {
 			what += " — probe could not run: " + err.Error()
 		}
 		for _, f := range fs {
